@@ -513,7 +513,8 @@ def _exec(M: Machine, prog: Program, single=False, trace=False):
                 elif m == "exp":
                     if a == 0 and b == 0:
                         raise Panic("0^0")
-                    r = a ** b
+                    # (no bignum detour: for a >= 2 any exponent >= 64 overflows uint64)
+                    r = a if a in (0, 1) else (U64 if b >= 64 else a ** b)
                 elif m == "shl":
                     if b >= 64:
                         raise Panic("shl")
@@ -555,7 +556,7 @@ def _exec(M: Machine, prog: Program, single=False, trace=False):
                 b = _u(pop()); a = _u(pop())
                 if a == 0 and b == 0:
                     raise Panic("0^0")
-                p = a ** b
+                p = a if a in (0, 1) else (2 ** 128 if b >= 128 else a ** b)
                 if p >= 2 ** 128:
                     raise Panic("expw overflow")
                 push(p >> 64); push(p % U64)
